@@ -31,6 +31,9 @@ pub struct Batch {
     pub found: Vec<Found>,
     pub samples: Vec<Case>,
     pub wall_s: f64,
+    /// (run index, milliseconds) of the slowest single run: harness diagnostics only (wall clock is
+    /// never read inside a run, only around it)
+    pub slowest: (u64, u128),
     /// fnv of all (idx, log hash) pairs in index order: the determinism witness of the batch
     pub witness: u64,
 }
@@ -72,6 +75,7 @@ struct Shard {
     found: Vec<Found>,
     samples: Vec<(u64, Case)>,
     hashes: Vec<(u64, u64)>,
+    slowest: (u64, u128),
 }
 
 /// Run `runs` cases (Some) or as many as fit into `budget` (None => use runs).
@@ -103,6 +107,7 @@ pub fn run_batch(
                     found: Vec::new(),
                     samples: Vec::new(),
                     hashes: Vec::new(),
+                    slowest: (0, 0),
                 };
                 loop {
                     if stop.load(Ordering::Relaxed) {
@@ -120,8 +125,13 @@ pub fn run_batch(
                     }
                     let end = if budget.is_none() { (b + BLOCK).min(runs) } else { b + BLOCK };
                     for idx in b..end {
+                        let t0 = Instant::now();
                         let (seed, case) = gen_case(s, master, tier, idx);
                         let mut out: RunOut = run_case(s.run, &case, false);
+                        let ms = t0.elapsed().as_millis();
+                        if ms > sh.slowest.1 {
+                            sh.slowest = (idx, ms);
+                        }
                         // fold the verdict into the hash: evaluations, violations, probes
                         out.mix(&out.evals.to_le_bytes());
                         let sigs: Vec<String> = out.violations.iter().map(|v| v.signature.clone()).collect();
@@ -181,6 +191,9 @@ pub fn run_batch(
         b.stats.add(&sh.stats);
         for (k, v) in sh.probes {
             *b.probes.entry(k).or_insert(0) += v;
+        }
+        if sh.slowest.1 > b.slowest.1 {
+            b.slowest = sh.slowest;
         }
         nontrivial.extend(sh.nontrivial);
         loghashes.extend(sh.loghashes);
